@@ -176,7 +176,8 @@ def recsum_callable(evaluator, rs):
     memo = {}
 
     def f(*args):
-        params, n = args[:-1], int(args[-1])
+        args = args[-(rs.nparams + 1):]          # leading arguments are the lambda-lifted constants
+        params, n = tuple(int(a) for a in args[:-1]), int(args[-1])
         key = (params, n)
         if key in memo:
             return memo[key]
